@@ -792,13 +792,14 @@ mod recv_driver {
     }
 
     #[derive(Debug)]
-    struct Seg(Vec<u8>);
+    struct Seg(usize);
     impl Segment for Seg {
         fn leak(&mut self) {}
     }
     /// collects the control packets the receiver wants to send
     #[derive(Default)]
     struct Outbox {
+        bufs: Vec<Vec<u8>>,
         sent: Vec<Vec<u8>>,
         ecn: ExplicitCongestionNotification,
         addr: SocketAddress,
@@ -807,27 +808,31 @@ mod recv_driver {
         type Segment = Seg;
         type Retransmission = Seg;
         fn alloc(&mut self) -> Option<Seg> {
-            Some(Seg(vec![]))
+            self.bufs.push(vec![]);
+            Some(Seg(self.bufs.len() - 1))
         }
         fn get<'a>(&'a self, segment: &'a Seg) -> &'a Vec<u8> {
-            &segment.0
+            &self.bufs[segment.0]
         }
         fn get_mut<'a>(&'a mut self, segment: &'a Seg) -> &'a mut Vec<u8> {
-            // the segment owns its bytes
-            unsafe { &mut *(&segment.0 as *const Vec<u8> as *mut Vec<u8>) }
+            &mut self.bufs[segment.0]
         }
         fn push(&mut self, segment: Seg) {
-            self.sent.push(segment.0);
+            let b = self.bufs[segment.0].clone();
+            self.sent.push(b);
         }
         fn push_with_retransmission(&mut self, segment: Seg) -> Seg {
-            self.sent.push(segment.0.clone());
+            let b = self.bufs[segment.0].clone();
+            self.sent.push(b);
             segment
         }
         fn retransmit(&mut self, segment: Seg) -> Seg {
             segment
         }
         fn retransmit_copy(&mut self, retransmission: &Seg) -> Option<Seg> {
-            Some(Seg(retransmission.0.clone()))
+            let b = self.bufs[retransmission.0].clone();
+            self.bufs.push(b);
+            Some(Seg(self.bufs.len() - 1))
         }
         fn can_push(&self) -> bool {
             true
@@ -906,7 +911,8 @@ mod recv_driver {
                         }
                         built[(a as usize) % built.len()].clone()
                     } else {
-                        let pn = a % 48;
+                        // recovery-space numbers are 1..=48: a retransmission must be numbered above its original (0)
+                        let pn = if kind == 1 { a % 48 + 1 } else { a % 48 };
                         let off = if total == 0 { 0 } else { b % (total + 1) };
                         let len = ((a / 48) % 1100 + 1).min(total - off);
                         let fin = off + len == total;
@@ -918,7 +924,7 @@ mod recv_driver {
                             final_offset: fin.then(|| VarInt::new(total).unwrap()),
                         };
                         // a retransmission is the original packet (some other original number) moved to the recovery space
-                        let orig_pn = if kind == 1 { VarInt::new(1000 + pn).unwrap() } else { VarInt::new(pn).unwrap() };
+                        let orig_pn = if kind == 1 { VarInt::ZERO } else { VarInt::new(pn).unwrap() };
                         let n = stream::encoder::encode(
                             EncoderBuffer::new(&mut buf),
                             None,
@@ -967,7 +973,12 @@ mod recv_driver {
                     let code = match &res {
                         Ok(()) => 0,
                         Err(e) if matches!(e.kind(), recv::ErrorKind::Duplicate) => 1,
-                        Err(_) => 2,
+                        Err(e) => {
+                            if std::env::var("C20_DEBUG").is_ok() {
+                                eprintln!("op {ops}: {e:?}");
+                            }
+                            2
+                        }
                     };
                     if code == 0 {
                         accepted[space as usize].insert(pn);
@@ -981,6 +992,7 @@ mod recv_driver {
                 3 => {
                     outbox.sent.clear();
                     state.on_transmit(&srv_ctl_seal, &creds, stream_id, None, &mut outbox, &clk, &publisher);
+                    outbox.bufs.clear();
                     for mut pkt in outbox.sent.drain(..) {
                         let Ok((mut p, _)) = control::decoder::Packet::decode(DecoderBufferMut::new(&mut pkt), (), 16) else {
                             acks_subset = false;
@@ -1077,7 +1089,7 @@ fn run_line(f: h_common::Component, line: &str) -> String {
 fn run_in_child(exe: &std::path::Path, comp: &str, line: &str) -> String {
     use std::io::{Read, Write};
     use std::process::{Command, Stdio};
-    let limit = std::env::var("C20_CASE_SECS").ok().and_then(|v| v.parse().ok()).unwrap_or(120u64);
+    let limit = std::env::var("C20_CASE_SECS").ok().and_then(|v| v.parse().ok()).unwrap_or(900u64);
     let mut child = match Command::new(exe)
         .arg(comp)
         .arg("--single")
